@@ -226,6 +226,8 @@ def twin_case(ctx, i, rng):
         return
     if not (r2.final_chi2 is not None and math.isfinite(r2.final_chi2)):
         raise Skip("exact-Jacobian twin did not stay finite (outside the neighbourhood)")
+    if not r2.converged:
+        raise Skip("exact-Jacobian twin did not converge within 50 iterations (outside the neighbourhood: no optimum to compare with)")
     scene = max(1.0, max(R.tmag(v["kind"], v["pose"]) for v in spec["vertices"]))
     worst = 0.0
     moved = 0.0
